@@ -15,7 +15,7 @@ TECHNIQUE = "bounded-exhaustive enumeration of (tagged graph, record set, output
 RULE = (
     "graphs: 1-3 chromosome bubble chains (hand-tagged) x record sets {every record touches a reference node; some touch none; all touch "
     "none; every subset-by-chromosome of the chromosomes present} x record order {as generated, reversed} x output {plain, --bgzip, "
-    ">64 KiB plain, >64 KiB --bgzip (several BGZF blocks)} x index path {default <outgaf>.gsi, --outind}. evaluations = sort runs; "
+    ">64 KiB plain, >64 KiB --bgzip (several BGZF blocks)} x index path {default <outgaf>.gsi, --outind <path>, --outind <bare name> from another working directory}; one record set already carries bo/sn/iv fields of an earlier sort. evaluations = sort runs; "
     "non-trivial = runs whose output holds >=2 contigs or no 'unknown' record or spans several BGZF blocks."
 )
 ASSUMPTIONS = [
@@ -62,6 +62,10 @@ def record_sets(g, chains, maxlen):
             sets.append((f"all-touch-reference[{','.join(sub)}]", allref))
             sets.append((f"some-touch-none[{','.join(sub)}]", allref + unk))
     sets.append(("none-touch-reference", unk))
+    # the output of an earlier sort against another build of the graph (other contig names) is sorted again: every record
+    # already carries bo/sn/iv fields
+    stale = [rgfa.Rec(*r.cols(), opt=list(r.opt) + ["bo:i:5", f"sn:Z:CHM13#0#{sc.sort_key(g, r)['sn']}", "iv:i:0"]) for c in chroms for r in ref[c]]
+    sets.append(("already-sorted-against-another-build", stale + unk[:1]))
     # every contig contributes exactly one record / one contig has one record and the others many
     ones = [ref[c][0] for c in chroms if ref[c]]
     sets.append(("one-record-per-contig", ones))
@@ -103,11 +107,22 @@ def judge(res, g, setname, recs, bgzip, use_outind, scratch, big=False, record_h
     fw.write_text(gaf, "".join(r.line() + "\n" for r in recs))
     outp = os.path.join(scratch, "s.gaf" + (".gz" if bgzip else ""))
     outind = os.path.join(scratch, "custom.idx") if use_outind else None
-    idx_path = outind or (outp + ".gsi")
-    for p in (idx_path,):
+    cwd = None
+    if use_outind == "bare":
+        # a bare file name for --outind: it belongs into the current directory, which is not that of --outgaf
+        cwd = os.getcwd()
+        os.makedirs(os.path.join(scratch, "cwd"), exist_ok=True)
+        os.chdir(os.path.join(scratch, "cwd"))
+        outind = "bare.idx"
+    idx_path = os.path.abspath(outind) if outind else (outp + ".gsi")
+    for p in (idx_path, os.path.join(scratch, "bare.idx")):
         if os.path.exists(p):
             os.remove(p)
-    out = sc.run_sort(scratch, gfa_path, gaf, outgaf=outp, outind=outind, bgzip=bgzip)
+    try:
+        out = sc.run_sort(scratch, gfa_path, gaf, outgaf=outp, outind=outind, bgzip=bgzip)
+    finally:
+        if cwd is not None:
+            os.chdir(cwd)
     res.evaluations += 1
     case = {"gfa": g.text(), "records": [r.line() for r in recs], "bgzip": bgzip, "outind": use_outind, "set": setname}
     if big:
@@ -118,7 +133,7 @@ def judge(res, g, setname, recs, bgzip, use_outind, scratch, big=False, record_h
         # can re-create everything the process did before it (state leaking between calls)
         CTX["n"] += 1
         case["call_sequence"] = {"spec": CTX["spec"], "tier": CTX["tier"], "index": CTX["n"]}
-    where = f"[{setname}, {'bgzip' if bgzip else 'plain'}{', >64KiB' if big else ''}, {'--outind' if use_outind else 'default .gsi'}]"
+    where = f"[{setname}, {'bgzip' if bgzip else 'plain'}{', >64KiB' if big else ''}, {('--outind ' + ('bare.idx (relative)' if use_outind == 'bare' else '<path>')) if use_outind else 'default .gsi'}]"
     if out.kind != "ok":
         res.fail(f"C10/sort-failed:{out.sig()}", f"{where} sort does not complete: {out.brief()}", case)
         return
@@ -184,7 +199,7 @@ def _run(res, spec, tier, scratch):
                 orders += [recs[k:] + recs[:k] for k in range(1, len(recs), max(1, len(recs) // 12))]
             for order in orders:
                 for bgzip in (False, True):
-                    for use_outind in (False, True):
+                    for use_outind in (False, True) + (("bare",) if order is recs else ()):
                         judge(res, g, setname, order, bgzip, use_outind, scratch)
         else:
             big = vi.pad_records(recs[:40], 200_000)
